@@ -523,6 +523,18 @@ fn main() {
         let nthreads = 2 + (pi % 3 == 2) as usize;
         let progs = if calls_only {
             let mut ps = gen_calls_only(&mut rng, &fns, nthreads, if nthreads == 2 { 3 } else { 2 });
+            if !result_hot {
+                // IMPURE values: thread t's calls produce value n + 1000 t for the same arguments, so that a replaced value
+                // that is served again (C01 "last store wins" under concurrency) is distinguishable from the latest one
+                for (ti, p) in ps.iter_mut().enumerate().skip(1) {
+                    for op in p.iter_mut() {
+                        let mut f: Vec<String> = op.split(' ').map(|s| s.to_string()).collect();
+                        let n: u64 = f[3].parse().unwrap();
+                        f[3] = (n + 1000 * ti as u64).to_string();
+                        *op = f.join(" ");
+                    }
+                }
+            }
             if result_hot {
                 // `call <fn> <j> <n> <ok> <len>`: every thread but the first fails
                 for p in ps.iter_mut().skip(1) {
@@ -602,7 +614,7 @@ fn main() {
                 let s0 = md::now_s();
                 let mut buf = Vec::new();
                 let idxs: Vec<String> = fns.iter().map(|s| s.idx.to_string()).collect();
-                buf.push(format!("E|{}|0|det=1", idxs.join(",")));
+                buf.push(format!("E|{}|0|det={}", idxs.join(","), if calls_only { 0 } else { 1 }));
                 buf.push(format!("R|{}", quiescent(&fns)));
                 let mut prng = Rng::new(seed ^ (runs as u64 * 7919 + pi as u64));
                 let mut ep = md::Episode::new(fns.clone(), 1);
